@@ -2494,3 +2494,23 @@ CASES += [
         self.count += 1;
         VarLabel::new(pos as u64)""")]),
 ]
+
+CASES += [
+    # ------------------------------------------------------------------ DN (round 10: C06-r10m2, C11-r10m2 - two agents, same idea)
+    dict(name="dn-order-cutoff-in-ddnnf-conditioning", file=DN, rule="DN", props=["C06"], expect="cond_helper:returned-as-is",
+         old="""            BddPtr::Reg(node) | BddPtr::Compl(node) => {
+                // check cache
+                if let Some(v) = bdd.scratch::<BddPtr>() {""",
+         new="""            BddPtr::Reg(node) | BddPtr::Compl(node) if self.order().lt(lbl, node.var) => bdd,
+            BddPtr::Reg(node) | BddPtr::Compl(node) => {
+                // check cache
+                if let Some(v) = bdd.scratch::<BddPtr>() {"""),
+    dict(name="dn-constant-test-first-ok", file=DN, rule="DN", props=["C06"], expect=None,
+         old="""    fn cond_helper(&'a self, bdd: BddPtr<'a>, lbl: VarLabel, value: bool) -> BddPtr<'a> {
+        match bdd {""",
+         new="""    fn cond_helper(&'a self, bdd: BddPtr<'a>, lbl: VarLabel, value: bool) -> BddPtr<'a> {
+        if bdd.is_const() {
+            return bdd;
+        }
+        match bdd {"""),
+]
